@@ -5,6 +5,7 @@
 //   T <cap> | <op> <op> .. ; <op> .. ; ... | <tid> <tid> ...   threads under the scheduler
 //   R <cap> <n> <trials>                            free-running trials on the real RNG (no script):
 //                                                   prints `r <anomalies> <times position i was yielded> ...`
+//   X <cap> <pushers> <pushes each> <consumes>      free-running stress (real threads, no scheduler, real RNG)
 //   ops:  P<value bits, decimal u64>:<choice>   push(f64::from_bits(bits)) with a one-choice script installed
 //         C        consume, callback reads everything
 //         C<k>     consume, callback reads at most k values and drops the Drain
@@ -127,6 +128,83 @@ fn run_free(cap: usize, n: usize, trials: usize) -> String {
     format!("r {} {}", bad, counts.iter().map(|c| c.to_string()).collect::<Vec<_>>().join(" "))
 }
 
+// free-running stress (real threads, no scheduler, real RNG): `pushers` threads push distinct
+// positive integers while one thread consumes periodically.  Judged: only what must hold even
+// inside the open late-push class (a drain never yields more than cap values nor more than its
+// len(); every yielded value was pushed at some time, or is the never-written initial slot
+// content 0.0 that a late push exposes (counted, not judged); sample_rate in (0,1]; no panic),
+// and after join + flushing both sides a quiescent cycle behaves sequentially.
+fn run_stress(cap: usize, pushers: usize, per: usize, consumes: usize) -> String {
+    use std::collections::HashSet;
+    let r = Arc::new(AtomicSamplingReservoir::new(cap));
+    let mut hs = Vec::new();
+    let live = Arc::new(std::sync::atomic::AtomicUsize::new(pushers));
+    for t in 0..pushers {
+        let r = r.clone();
+        let live = live.clone();
+        hs.push(std::thread::spawn(move || {
+            for i in 0..per {
+                r.push((t * 1_000_000 + i + 1) as f64);
+                if i % 64 == 0 { std::thread::yield_now(); }
+            }
+            live.fetch_sub(1, std::sync::atomic::Ordering::SeqCst);
+        }));
+    }
+    let mut drains: Vec<(usize, f64, Vec<f64>)> = Vec::new();
+    let rc = r.clone();
+    let ch = std::thread::spawn(move || {
+        let mut out = Vec::new();
+        // at least `consumes` drains, and keep draining while a pusher is running
+        while out.len() < consumes || live.load(std::sync::atomic::Ordering::SeqCst) > 0 {
+            rc.consume(|drain| {
+                let l = drain.len();
+                let rate = drain.sample_rate();
+                out.push((l, rate, drain.collect::<Vec<f64>>()));
+            });
+            std::thread::yield_now();
+        }
+        out
+    });
+    let mut panics = 0;
+    for h in hs { if h.join().is_err() { panics += 1; } }
+    match ch.join() { Ok(o) => drains = o, Err(_) => panics += 1 }
+    // flush both sides (still judged by the bounds only)
+    for _ in 0..2 {
+        r.consume(|drain| { let l = drain.len(); let rate = drain.sample_rate(); drains.push((l, rate, drain.collect())); });
+    }
+    let mut bad: Vec<String> = Vec::new();
+    let (mut yielded, mut stale0) = (0usize, 0usize);
+    let mut seen: HashSet<u64> = HashSet::new();
+    for (l, rate, vals) in &drains {
+        if *l > cap { bad.push("len>cap".into()); }
+        if vals.len() != *l { bad.push("yielded!=len".into()); }
+        if !(*rate > 0.0 && *rate <= 1.0) && cap > 0 { bad.push(format!("rate={}", rate)); }
+        if cap == 0 && !(*rate == 0.0 || *rate == 1.0) { bad.push(format!("rate0={}", rate)); }
+        for v in vals {
+            yielded += 1;
+            if *v == 0.0 { stale0 += 1; continue; }
+            let id = *v as usize;
+            let (t, i) = (id / 1_000_000, id % 1_000_000);
+            if v.fract() != 0.0 || t >= pushers || i == 0 || i > per { bad.push(format!("neverpushed={}", v)); }
+            seen.insert(v.to_bits());
+        }
+    }
+    // quiescent cycle: m fresh values, one consume
+    let m = cap + 3;
+    for i in 0..m { r.push((900_000_000 + i) as f64); }
+    r.consume(|drain| {
+        let l = drain.len();
+        let rate = drain.sample_rate();
+        let vals: Vec<f64> = drain.collect();
+        let expect_rate = if m > cap { cap as f64 / m as f64 } else { 1.0 };
+        if l != cap.min(m) || vals.len() != l || rate != expect_rate { bad.push(format!("final:len={},rate={}", l, rate)); }
+        if vals.iter().any(|v| *v < 900_000_000.0 || *v >= (900_000_000 + m) as f64) { bad.push("final:foreign".into()); }
+    });
+    bad.sort(); bad.dedup();
+    format!("x panics={} drains={} yielded={} distinct={} stale0={} pushed={} bad={}", panics, drains.len(), yielded, seen.len(), stale0,
+            pushers * per, if bad.is_empty() { "-".to_string() } else { bad.join(",") })
+}
+
 fn main() {
     std::panic::set_hook(Box::new(|_| {}));
     let stdin = std::io::stdin();
@@ -142,6 +220,10 @@ fn main() {
         let o = match mode {
             "S" => run_seq(cap, parts.get(1).copied().unwrap_or("")),
             "T" => run_threads(cap, parts[1], parts.get(2).copied().unwrap_or("")),
+            "X" => {
+                let a: Vec<usize> = head.map(|x| x.parse().unwrap()).collect();
+                run_stress(cap, a[0], a[1], a[2])
+            }
             "R" => {
                 let n: usize = head.next().unwrap().parse().unwrap();
                 let trials: usize = head.next().unwrap().parse().unwrap();
